@@ -23,7 +23,7 @@ RULE = ("R-score notes, containers (+duration), bars, tracks and compositions: 3
         "(LilyPond). LilyPond text is decoded by an own reader of the emitted subset, MusicXML by xml.etree, and compared entry by "
         "entry with the description. Non-trivial: a score with a dotted or tuplet value or a chord, a key/meter change between bars, "
         "or metadata containing a markup character."
-        ' Also: enharmonic twin and repeated bars, tracks sharing one instrument object, and a second export of the same objects must give the same text and leave the music unchanged; chords that are not in ascending order (after item assignment), entries held in a user subclass of NoteContainer, MIDI instruments of a user subclass. A third of the generated compositions carry an e-mail address; all combinations of set / empty title, subtitle, author and e-mail.')
+        ' Also: enharmonic twin and repeated bars, tracks sharing one instrument object, and a second export of the same objects must give the same text and leave the music unchanged; chords that are not in ascending order (after item assignment), entries held in a user subclass of NoteContainer, MIDI instruments of a user subclass. A third of the generated compositions carry an e-mail address; all combinations of set / empty title, subtitle, author and e-mail. Tracks of one-entry bars in every meter for both exporters.')
 ASSUMPTIONS = ["LilyPond: a \\times 1/1 group is the identity; whitespace is not compared; header strings contain no \" or \\",
                "MusicXML: part ids only need to be unique and consistent; encoding date, clef and time-modification are not compared; "
                "an empty title/author may be omitted", "the unbounded (0,0) meter is not exported"]
